@@ -1,7 +1,7 @@
 (* C01 — lemmas about the factor bits, the sufficientAuthLevel loop and check_auth as
    certGenHandler calls it (requiredAuthType = AuthTypeAny).  (Proofs/Auth*.v is reserved for C06.) *)
 From Coq Require Import ZArith.
-From KM Require Import Base.Bytes Base.Tactics Model.Auth Model.Certgen Proofs.CertgenSpec.
+From KM Require Import Base.Bytes Base.Tactics Model.Auth Model.Certgen Model.CertgenCases Proofs.CertgenSpec.
 Open Scope N_scope.
 
 Lemma land_pow2 l k : N.land l (2 ^ k) = if N.testbit l k then 2 ^ k else 0.
@@ -170,42 +170,110 @@ Proof.
     destruct H as [A [B [C D]]]; discriminate.
 Qed.
 
-Lemma token_ok_valid now t :
-  token_ok now t = true /\ (t_exp t <? now)%Z = false <-> valid_session now t.
+Lemma aud0_is_spec aud x : aud0_is aud x = true <-> exists rest, aud = x :: rest.
 Proof.
-  unfold token_ok, valid_session. rewrite !andb_true_iff, negb_true_iff, N.eqb_eq, Z.leb_le, Z.ltb_ge.
+  destruct aud as [|a r]; simpl.
+  - split; [discriminate|]. intros [rest H]. discriminate.
+  - rewrite bs_eqb_eq. split; [intros ->; eauto|]. intros [rest H]. inversion H. reflexivity.
+Qed.
+
+(* the cookie branch's tests on the wire token, with iss / aud compared as strings *)
+Lemma token_ok_valid issuer now w :
+  token_ok now (token_of issuer w) = true /\ (w_exp w <? now)%Z = false <-> valid_session issuer now w.
+Proof.
+  unfold token_ok, valid_session, token_of. cbn.
+  rewrite !andb_true_iff, negb_true_iff, N.eqb_eq, Z.leb_le, Z.ltb_ge, bs_eqb_eq, aud0_is_spec.
   tauto.
 Qed.
 
-Lemma cookie_branch_sound now lim q u level iat :
-  cookie_branch_any now lim (q_cred q) = Admit u level iat -> proves now q u level.
+Lemma valid_session_b_iff issuer now w : valid_session_b issuer now w = true <-> valid_session issuer now w.
 Proof.
-  unfold cookie_branch_any. destruct (q_cred q) as [|bu ok berr|t] eqn:C; [discriminate| |].
-  - destruct lim; simpl; [|discriminate]. destruct berr; [discriminate|]. destruct ok; [|discriminate].
-    intro H. inversion H; subst. apply P_password; [exact C|reflexivity].
-  - destruct (token_ok now t) eqn:T; simpl; [|discriminate].
-    destruct (t_exp t <? now)%Z eqn:E; [discriminate|].
-    destruct (hasb (t_level t) bAny); simpl; [|discriminate].
-    intro H. inversion H; subst. eapply P_session; eauto. apply token_ok_valid. auto.
+  unfold valid_session_b, valid_session.
+  rewrite !andb_true_iff, negb_true_iff, N.eqb_eq, !Z.leb_le, bs_eqb_eq, aud0_is_spec. tauto.
 Qed.
 
-Lemma check_auth_sound now lim q u level iat :
-  check_auth now lim bAny (auth_request q) = Admit u level iat -> proves now q u level.
+Lemma cookie_branch_sound st now lim q u level iat :
+  cookie_branch_any now lim (carried_cred st q) = Admit u level iat -> proves st now q u level.
+Proof.
+  unfold cookie_branch_any, carried_cred.
+  destruct (q_cookie q) as [w|] eqn:C.
+  - destruct (token_ok now (token_of (issuer_of st) w)) eqn:T; simpl; [|discriminate].
+    change (t_exp (token_of (issuer_of st) w)) with (w_exp w).
+    change (t_level (token_of (issuer_of st) w)) with (w_level w).
+    change (t_sub (token_of (issuer_of st) w)) with (w_sub w).
+    destruct (w_exp w <? now)%Z eqn:E; [discriminate|].
+    destruct (hasb (w_level w) bAny); simpl; [|discriminate].
+    intro H. inversion H; subst. eapply P_session; eauto. apply token_ok_valid. auto.
+  - destruct (q_basic q) as [b|] eqn:B; [|discriminate].
+    destruct lim; simpl; [|discriminate]. destruct (b_err b) eqn:BE; [discriminate|].
+    destruct (b_ok b) eqn:BO; [|discriminate].
+    intro H. inversion H; subst. eapply P_password; eauto.
+Qed.
+
+Lemma csrf_none_or_refuse (q : certreq) x :
+  (if match q_method q with HGet => true | _ => false end then None
+   else match q_origin q with BadOrigin => Some (Refuse 400) | CrossOrigin => Some (Refuse 401) | _ => None end) = Some x ->
+  exists code, x = Refuse code.
+Proof.
+  destruct (q_method q); destruct (q_origin q); try discriminate; intro H; inversion H; eauto.
+Qed.
+
+(* what checkAuth returns when a client certificate is presented (AuthTypeAny): the certificate
+   alone decides *)
+Definition tls_result (now : Z) (c : tlsinfo) : result :=
+  match ip_restricted c, km_signed c with
+  | IpOk, Some _ => Admit (c_cn c) (N.lor bKMX509 bIPCert) now
+  | IpOk, None => Admit (c_cn c) bIPCert now
+  | _, Some (u, nb) => Admit u bKMX509 nb
+  | IpUserErr, None => Refuse 403
+  | IpErr, None => Refuse 500
+  end.
+
+Lemma tls_result_sound now q c u level iat :
+  q_tls q = Some c -> tls_result now c = Admit u level iat -> cert_proves q u level.
+Proof.
+  intros TL. unfold tls_result.
+  destruct (ip_restricted c) eqn:IP; destruct (km_signed c) as [[ku knb]|] eqn:KM;
+    intro H; inversion H; subst; clear H.
+  - apply km_signed_some in KM. destruct KM as [K _]. apply ip_restricted_ok in IP. eapply CP_both; eauto.
+  - apply ip_restricted_ok in IP. eapply CP_ip; eauto.
+  - apply km_signed_some in KM. destruct KM as [K ->]. eapply CP_km; eauto.
+  - apply km_signed_some in KM. destruct KM as [K ->]. eapply CP_km; eauto.
+Qed.
+
+Lemma cert_proves_proves st now q u level : cert_proves q u level -> proves st now q u level.
+Proof.
+  intros [c A B C D|c A B C D|c A B C D E].
+  - eapply P_km_cert; eauto.
+  - eapply P_ip_cert; eauto.
+  - eapply P_both; eauto.
+Qed.
+
+Lemma check_auth_sound st now lim q u level iat :
+  check_auth now lim bAny (auth_request st q) = Admit u level iat -> proves st now q u level.
 Proof.
   rewrite check_auth_any_eq. unfold check_auth_any. cbn [auth_request r_get r_origin r_tls r_cred].
   set (csrf := if match q_method q with HGet => true | _ => false end then None else _).
   destruct csrf as [x|] eqn:CS.
-  - subst csrf. destruct (q_method q); destruct (q_origin q); try discriminate;
-      inversion CS; subst; discriminate.
+  - subst csrf. apply csrf_none_or_refuse in CS. destruct CS as [code ->]. discriminate.
   - clear CS csrf. destruct (q_tls q) as [c|] eqn:TL.
-    + destruct (ip_restricted c) eqn:IP; destruct (km_signed c) as [[ku knb]|] eqn:KM;
-        intro H; inversion H; subst; clear H.
-      * apply km_signed_some in KM. destruct KM as [K _]. apply ip_restricted_ok in IP.
-        eapply P_both; eauto.
-      * apply ip_restricted_ok in IP. eapply P_ip_cert; eauto.
-      * apply km_signed_some in KM. destruct KM as [K ->]. eapply P_km_cert; eauto.
-      * apply km_signed_some in KM. destruct KM as [K ->]. eapply P_km_cert; eauto.
+    + intro H. apply cert_proves_proves. eapply tls_result_sound; eauto.
     + apply cookie_branch_sound.
+Qed.
+
+(* with a client certificate on the connection the answer of checkAuth does not depend on the
+   cookie or the Basic header, and an admission is the certificate's own *)
+Lemma check_auth_with_cert st now lim q c :
+  q_tls q = Some c ->
+  check_auth now lim bAny (auth_request st q) =
+  match (if match q_method q with HGet => true | _ => false end then None
+         else match q_origin q with BadOrigin => Some (Refuse 400) | CrossOrigin => Some (Refuse 401) | _ => None end) with
+  | Some x => x
+  | None => tls_result now c
+  end.
+Proof.
+  intro TL. rewrite check_auth_any_eq. unfold check_auth_any. cbn [auth_request r_get r_origin r_tls r_cred].
+  rewrite TL. reflexivity.
 Qed.
 
 (* every refusal of checkAuth carries an error status *)
